@@ -408,6 +408,14 @@ theorem run_afterTm (sl : RemKind → Bool → Bool) (acq : Nat → Nat) (I : US
 
 
 
+/-- `shutdownFrom` differs from `shutdownOp` only in the list of tasks the coroutine waits for -/
+theorem shutdownFrom_fields (tm : TM) (n : Nat) :
+    (tm.shutdownFrom n).tasks = tm.shutdownOp.tasks ∧ (tm.shutdownFrom n).log = tm.shutdownOp.log ∧
+    (tm.shutdownFrom n).shutdown = tm.shutdownOp.shutdown ∧ (tm.shutdownFrom n).map = tm.shutdownOp.map ∧
+    (tm.shutdownFrom n).conts = tm.shutdownOp.conts ∧ (tm.shutdownFrom n).next = tm.shutdownOp.next := by
+  unfold TM.shutdownFrom
+  split <;> exact ⟨rfl, rfl, rfl, rfl, rfl, rfl⟩
+
 /-! ### task manager: a manager that was shut down and whose tasks have all finished stays dead -/
 
 /-- the state in which `unload` has completed: the flag is set and every task ever created has finished -/
@@ -491,6 +499,10 @@ theorem step_dead (tm : TM) (op : TOp) (h : Dead tm) : SameCore tm (tm.step op) 
     simp only [TM.step, TM.replace, cancel_dead tm n h]
     exact ⟨rfl, rfl, rfl⟩
   | shutdown => simp only [TM.step, TM.shutdownOp, h.1, if_true]; exact SameCore.refl tm
+  | shutdownFrom n =>
+    have f := shutdownFrom_fields tm n
+    have e : tm.shutdownOp = tm := by simp only [TM.shutdownOp, h.1, if_true]
+    exact ⟨by simp only [TM.step]; rw [f.1, e], by simp only [TM.step]; rw [f.2.1, e], by simp only [TM.step]; rw [f.2.2.1, e]⟩
   | pass => exact pass_dead tm h
   | settle =>
     simp only [TM.step, TM.settle]
@@ -847,6 +859,11 @@ theorem logInv_step (tm : TM) (op : TOp) (h : LogInv tm) : LogInv (tm.step op) :
   | cancel n => exact (logInv_cancel tm n h).1
   | replace n s => exact logInv_replace tm n s h
   | shutdown => exact logInv_shutdown tm h
+  | shutdownFrom n =>
+    have f := shutdownFrom_fields tm n
+    obtain ⟨a, b, c⟩ := logInv_shutdown tm h
+    exact ⟨by simp only [TM.step]; rw [f.2.1]; exact a, by simp only [TM.step]; rw [f.1, f.2.1]; exact b,
+           by simp only [TM.step]; rw [f.2.2.2.2.1, f.1]; exact c⟩
   | pass => exact logInv_pass tm h
   | settle => exact logInv_pass _ (logInv_pass _ (logInv_pass tm h))
   | tick =>
@@ -1013,6 +1030,12 @@ theorem step_quiet (tm : TM) (op : TOp) (h : Quiet tm) : Quiet (tm.step op) ∧ 
     simp only [TM.step, TM.replace]
     exact ⟨⟨c.1.1, c.1.2⟩, c.2.1⟩
   | shutdown => simp only [TM.step, TM.shutdownOp, h.1, if_true]; exact ⟨h, SameWork.refl tm⟩
+  | shutdownFrom n =>
+    have f := shutdownFrom_fields tm n
+    have e : tm.shutdownOp = tm := by simp only [TM.shutdownOp, h.1, if_true]
+    refine ⟨⟨by simp only [TM.step]; rw [f.2.2.1, e]; exact h.1, by simp only [TM.step]; rw [f.1, e]; exact h.2⟩, ?_, ?_⟩
+    · simp only [TM.step]; rw [f.1, e]
+    · simp only [TM.step]; rw [f.2.1, e]
   | pass => exact pass_quiet tm h
   | settle => exact p3 tm h
   | tick =>
@@ -1312,6 +1335,12 @@ theorem tracked_step (tm : TM) (op : TOp) (h : Tracked tm) : Tracked (tm.step op
   | cancel n => exact tracked_cancel tm n h
   | replace n s => exact tracked_replace tm n s h
   | shutdown => exact tracked_shutdown tm h
+  | shutdownFrom n =>
+    have f := shutdownFrom_fields tm n
+    obtain ⟨a, b⟩ := tracked_shutdown tm h
+    refine ⟨?_, ?_⟩
+    · unfold IdsOk at a ⊢; simp only [TM.step]; rw [f.1, f.2.2.2.2.2]; exact a
+    · simp only [TM.step]; rw [f.1, f.2.2.2.1]; exact b
   | pass => exact tracked_pass tm h
   | settle => exact tracked_pass _ (tracked_pass _ (tracked_pass tm h))
   | tick =>
@@ -1342,6 +1371,10 @@ theorem quiet_when_shutdown (ops : List TOp) : ∀ (tm : TM), Tracked tm → (tm
     · have hs0' : tm.shutdown = false := by simpa using hs0
       cases op with
       | shutdown => exact quiet_of_tracked_shutdown tm ht hs0'
+      | shutdownFrom n =>
+        have f := shutdownFrom_fields tm n
+        have q := quiet_of_tracked_shutdown tm ht hs0'
+        exact ⟨by simp only [TM.step]; rw [f.2.2.1]; exact q.1, by simp only [TM.step]; rw [f.1]; exact q.2⟩
       | reg n s =>
         exfalso
         have : (tm.step (.reg n s)).shutdown = tm.shutdown := by
